@@ -172,8 +172,23 @@ func c16RunSeed(seed uint64, tier string) *Outcome {
 		default:
 			ov := sdk.NewCoin(BondDenom, sdk.NewIntFromBigInt(r.BigLogUniform(15)))
 			start := spec.GenesisTime.Unix() + int64(r.Range(-400, 400))*86400
-			spec.VestingAccounts = append(spec.VestingAccounts, kernel.VAccSpec{Addr: a, OriginalVesting: ov.String(), Start: start, End: start + int64(r.Range(1, 800))*86400})
-			spec.Balances = append(spec.Balances, kernel.BalSpec{Addr: a, Coins: ov.String()})
+			va := kernel.VAccSpec{Addr: a, OriginalVesting: ov.String(), Start: start, End: start + int64(r.Range(1, 800))*86400}
+			bal := ov
+			if r.P(0.6) {
+				// the account staked before the upgrade: part of its vesting (and maybe free) coins is delegated
+				dv := sdk.NewCoin(BondDenom, ov.Amount.QuoRaw(int64(r.Range(2, 9))))
+				if dv.IsPositive() {
+					va.DelegatedVesting = dv.String()
+					bal = ov.Sub(dv)
+				}
+				if r.Bool() {
+					va.DelegatedFree = sdk.NewCoin(BondDenom, sdk.NewInt(int64(r.Range(1, 100000)))).String()
+				}
+			}
+			spec.VestingAccounts = append(spec.VestingAccounts, va)
+			if bal.IsPositive() {
+				spec.Balances = append(spec.Balances, kernel.BalSpec{Addr: a, Coins: bal.String()})
+			}
 		}
 	}
 	for i := 0; i < r.Range(0, 2); i++ {
